@@ -532,6 +532,61 @@ class _SetattrUnroller(ast.NodeTransformer):
         return out
 
 
+class _PartialFolder(ast.NodeTransformer):
+    """f = partial(g, a, k=v) ... f(x, y=z)   ->   g(a, x, k=v, y=z)
+    for a local `f` that is bound once, only ever called, and whose frozen arguments are constants or names that are never
+    rebound in the function (so evaluating them at the call instead of at partial() makes no difference)."""
+
+    def __init__(self, fn: ast.AST) -> None:
+        self.fn = fn
+        self.count = 0
+        self.partials: dict[str, ast.Call] = {}
+        stores: dict[str, int] = {}
+        for n in ast.walk(fn):
+            if isinstance(n, ast.Name) and isinstance(n.ctx, (ast.Store, ast.Del)):
+                stores[n.id] = stores.get(n.id, 0) + 1
+        a = fn.args
+        params = {x.arg for x in a.posonlyargs + a.args + a.kwonlyargs}
+        for n in walk_no_nested(fn):
+            if isinstance(n, ast.Assign) and len(n.targets) == 1 and isinstance(n.targets[0], ast.Name) and isinstance(n.value, ast.Call):
+                f = n.value.func
+                is_partial = (isinstance(f, ast.Name) and f.id == "partial") or (isinstance(f, ast.Attribute) and f.attr == "partial" and isinstance(f.value, ast.Name) and f.value.id == "functools")
+                name = n.targets[0].id
+                if not is_partial or not n.value.args or stores.get(name, 0) != 1 or name in params:
+                    continue
+                frozen = list(n.value.args[1:]) + [k.value for k in n.value.keywords]
+                if any(k.arg is None for k in n.value.keywords) or any(isinstance(x, ast.Starred) for x in n.value.args):
+                    continue
+
+                def stable(e: ast.AST) -> bool:
+                    if isinstance(e, ast.Constant):
+                        return True
+                    if isinstance(e, ast.Name):
+                        return stores.get(e.id, 0) == 0  # parameters and globals never rebound here
+                    if isinstance(e, ast.Attribute):
+                        return stable(e.value)
+                    return False
+                if not all(stable(x) for x in frozen) or not isinstance(n.value.args[0], (ast.Name, ast.Attribute)):
+                    continue
+                # only ever called
+                uses = [x for x in ast.walk(fn) if isinstance(x, ast.Name) and x.id == name and isinstance(x.ctx, ast.Load)]
+                calls = [x for x in ast.walk(fn) if isinstance(x, ast.Call) and isinstance(x.func, ast.Name) and x.func.id == name]
+                if uses and len(uses) == len(calls):
+                    self.partials[name] = n.value
+
+    def visit_Call(self, node: ast.Call) -> ast.AST:
+        self.generic_visit(node)
+        if isinstance(node.func, ast.Name) and node.func.id in self.partials and not any(isinstance(a, ast.Starred) for a in node.args) \
+                and not any(k.arg is None for k in node.keywords):
+            p = self.partials[node.func.id]
+            own = {k.arg for k in node.keywords}
+            kws = [ast.keyword(arg=k.arg, value=clone(k.value)) for k in p.keywords if k.arg not in own] + list(node.keywords)
+            new = ast.Call(func=clone(p.args[0]), args=[clone(a) for a in p.args[1:]] + list(node.args), keywords=kws)
+            self.count += 1
+            return ast.copy_location(new, node)
+        return node
+
+
 def build_inlined_repo(root=None, keep: set[str] | None = None) -> tuple[Repo, dict[str, int]]:
     """A second Repo whose functions have their private helpers inlined (ASTs mutated in place on a private parse,
     original line numbers kept on every statement)."""
@@ -545,6 +600,10 @@ def build_inlined_repo(root=None, keep: set[str] | None = None) -> tuple[Repo, d
         u = _SetattrUnroller(work, fi)
         u.visit(fi.node)
         unrolled += u.count
+        pf = _PartialFolder(fi.node)
+        if pf.partials:
+            pf.visit(fi.node)
+            unrolled += pf.count
     if unrolled:
         for mod in work.modules.values():
             ast.fix_missing_locations(mod.tree)
